@@ -200,7 +200,7 @@ pub fn c15_replay_case(data: &[u8]) -> Option<serde_json::Value> {
     };
     let input: String = input.chars().take(if use_glr { 24 } else { 200 }).collect();
     let case = crate::props::c15::Case {
-        g: crate::props::common::GCase { spec: { let mut s = e.spec.clone(); s.layout = None; s }, tapes: vec![], lines: false },
+        g: crate::props::common::GCase { spec: { let mut s = e.spec.clone(); s.layout = None; s }, tapes: vec![], lines: false, layout_mode: 0 },
         glr: use_glr,
         ps: false,
         pse: true,
